@@ -151,3 +151,89 @@ Proof.
   pose proof (run_tracked h0 (sys_init dbg ringcap stackcap qcap) (tracked_init _ _ _ _)) as Ht.
   fold s in Ht. destruct Ht as (_ & B & _). rewrite (B Hpc). reflexivity.
 Qed.
+
+(* ================================================================ the batch is what was popped *)
+(* the same for the whole batch: through any history without a process step or a new reporter,
+   the collector's batch is the batch it held before with the commands POPPED along the
+   history added in pop order -- nothing enters a batch except by a pop from a command channel,
+   nothing popped is left out, nothing is reordered *)
+Definition cmd_of (oc : option command) : list command :=
+  match oc with Some c => [c] | None => [] end.
+
+Fixpoint popped_cmds (s : sys) (h : list action) : list command :=
+  match h with
+  | [] => []
+  | a :: h' => cmd_of (popped_cmd s a) ++ popped_cmds (fst (step s a)) h'
+  end.
+
+Lemma step_batch s a :
+  a <> ACProcess -> (forall cb, a <> AInstall cb) ->
+  s_batch (fst (step s a)) = fold_left batch_add (cmd_of (popped_cmd s a)) (s_batch s).
+Proof.
+  intros Hnp Hni.
+  assert (Same : forall s', s_batch s' = s_batch s ->
+            s_batch s' = fold_left batch_add (cmd_of None) (s_batch s)).
+  { intros s' E1. rewrite E1. reflexivity. }
+  unfold popped_cmd. unfold step. destruct a; cbv beta iota zeta.
+  - exfalso. apply (Hni cancelable). reflexivity.
+  - destruct (amem t (s_threads (s_tick s)) || in_drain (s_pc (s_tick s))); cbn [fst snd]; apply Same; reflexivity.
+  - destruct (get_thread (s_tick s) t) as [th|] eqn:Eg; [|cbn [fst snd]; apply Same; reflexivity].
+    destruct (th_outbox th); [|cbn [fst snd]; apply Same; reflexivity].
+    destruct (ch_dropping (th_chan th)); [cbn [fst snd]; apply Same; reflexivity|].
+    destruct (exec_call (s_tick s) th _ c) as [s1 th1 e1 out r|code|site] eqn:Ex; cbn [fst snd]; try (apply Same; reflexivity).
+    destruct (exec_call_collector _ _ _ _ _ _ _ _ _ Ex) as (_ & A2 & A3). apply Same; simpl; assumption.
+  - destruct (get_thread (s_tick s) t) as [th|] eqn:Eg; [|cbn [fst snd]; apply Same; reflexivity].
+    destruct (ch_dropping (th_chan th)).
+    + destruct (ch_abandoned (th_chan th)); cbn [fst snd]; apply Same; reflexivity.
+    + destruct (th_outbox th) as [|[f cmd] rest]; [cbn [fst snd]; apply Same; reflexivity|].
+      destruct (push_step (th_chan th) f cmd) as [ch' fin]. cbn [fst snd]. apply Same; reflexivity.
+  - destruct (get_thread (s_tick s) t) as [th|] eqn:Eg; [|cbn [fst snd]; apply Same; reflexivity].
+    destruct (th_outbox th), (th_scoped th), (th_frames th); try (cbn [fst snd]; apply Same; reflexivity).
+    destruct (ch_dropping (th_chan th)); cbn [fst snd]; apply Same; reflexivity.
+  - destruct (s_pc (s_tick s)) eqn:Epc; try (cbn [fst snd]; apply Same; reflexivity).
+    destruct (s_installed (s_tick s)); try (cbn [fst snd]; apply Same; reflexivity).
+    destruct (s_registry (s_tick s)); cbn [fst snd]; apply Same; reflexivity.
+  - (* pop *)
+    change (s_pc (s_tick s)) with (s_pc s). change (get_thread (s_tick s)) with (get_thread s).
+    destruct (s_pc s) eqn:Epc; try (cbn [fst snd]; apply Same; reflexivity).
+    destruct (get_thread s cur) as [th|] eqn:Eg; [|cbn [fst snd]; apply Same; reflexivity].
+    destruct (pop_step (th_chan th)) as [[c0|] ch'] eqn:Ep; cbn [fst snd].
+    + cbn [s_batch s_set_collector cmd_of fold_left]. reflexivity.
+    + apply Same; reflexivity.
+  - (* check *)
+    change (s_pc (s_tick s)) with (s_pc s). change (get_thread (s_tick s)) with (get_thread s).
+    destruct (s_pc s) eqn:Epc; try (cbn [fst snd]; apply Same; reflexivity).
+    destruct (get_thread s cur) as [th|] eqn:Eg; [|cbn [fst snd]; apply Same; reflexivity].
+    destruct (ch_abandoned (th_chan th)).
+    + destruct (pop_step (th_chan th)) as [[c0|] ch'] eqn:Ep; cbn [fst snd].
+      * cbn [s_batch s_set_collector cmd_of fold_left]. reflexivity.
+      * destruct (advance todo kept) as [pc [reg|]]; cbn [fst snd]; apply Same; reflexivity.
+    + destruct (advance todo (kept ++ [cur])) as [pc [reg|]]; cbn [fst snd]; apply Same; reflexivity.
+  - exfalso. apply Hnp. reflexivity.
+Qed.
+
+Theorem run_batch h : forall s,
+  no_process_no_install h ->
+  s_batch (fst (run s h)) = fold_left batch_add (popped_cmds s h) (s_batch s).
+Proof.
+  induction h as [|a h IH]; intros s Hn.
+  - reflexivity.
+  - inversion Hn as [|? ? [Ha1 Ha2] Hn']; subst.
+    pose proof (step_batch s a Ha1 Ha2) as E1.
+    cbn [run popped_cmds]. destruct (step s a) as [s1 o] eqn:Es. cbn [fst snd] in *.
+    pose proof (IH s1 Hn') as I1.
+    destruct (run s1 h) as [s2 os]. cbn [fst snd] in *.
+    rewrite I1, E1, fold_left_app. reflexivity.
+Qed.
+
+(* a whole cycle from a reachable idle state: the batch handed to the process step is built
+   from the empty batch by exactly the commands this cycle popped, in pop order *)
+Theorem cycle_batch_is_the_popped_commands dbg ringcap stackcap qcap h0 h :
+  let s := fst (run (sys_init dbg ringcap stackcap qcap) h0) in
+  s_pc s = PIdle -> no_process_no_install h ->
+  s_batch (fst (run s h)) = fold_left batch_add (popped_cmds s h) batch_empty.
+Proof.
+  intros s Hpc Hn.
+  pose proof (run_tracked h0 (sys_init dbg ringcap stackcap qcap) (tracked_init _ _ _ _)) as Ht.
+  fold s in Ht. destruct Ht as (_ & B & _). rewrite <- (B Hpc). apply run_batch. exact Hn.
+Qed.
